@@ -187,8 +187,12 @@ CHECKS['C07'] = dict(
          "tests the return flag after each statement; call, callMethod, runConstructorChain and destroyObject save, clear and restore "
          "the flag on all normal paths); every computed subscript of a value array is dominated by the `i<0 || i>=size` test on the same "
          "container (or is a loop induction variable bounded by that container's size) and language-level `/`/`%` by their zero tests; "
-         "`/` yields a Float-tagged value on every path. All CFG paths of those functions.",
-    note=TB + "NOT decided: the values and result types of the operator cascade, numeric formatting, casts, short-circuit order and "
+         "`/` yields a Float-tagged value on every path; numeric routing of the operator cascade (double arithmetic only under the "
+         "has-a-float-operand guard, integer arithmetic only under its negation, result tags under matching guards); and the result "
+         "type of every documented (operator, left type, right type) combination of scalar operands, decided exactly by abstract "
+         "evaluation of the cascade's syntax tree over type tags (quotient validity checked: values steer control only through "
+         "comparisons with literals). All CFG paths of those functions.",
+    note=TB + "NOT decided: operator result *values* beyond one representative per type class, numeric formatting, casts, evaluation order and "
          "for-loop update ordering — that is a differential property against a reference interpreter over runtime values, out of reach "
          "of a static rule. The clauses above are necessary conditions (breaking one changes behaviour), not the whole property.",
     tech="static analysis: class-hierarchy exhaustiveness of dynamic_cast dispatch, CFG dominance of guards over subscripts/divisions, save/clear/restore typestate of the return flag")
